@@ -146,6 +146,9 @@ pub fn run_c06_case(p: &Program, cfg: &Config, max_iters_for_injection: usize) -
     // F-limit: the branch limit strikes in the middle of an execution (a panic raised by loom
     // itself, from inside an operation); with exactly the needed capacity nothing changes
     let mut limit_faults = 0u64;
+    let branch_in_caught_unwind = p.threads.iter().flatten().any(|o| {
+        o.is_caught() && !matches!(o.inner(), Op::Unlock { .. } | Op::RUnlock { .. } | Op::WUnlock { .. } | Op::TrackDrop { .. } | Op::Dealloc { .. } | Op::DropTx { .. } | Op::Unpark { .. })
+    });
     if matches!(dry.status, LoomStatus::Completed) && dry.iterations <= max_iters_for_injection && tr.max_path >= 2 && rep.violations.is_empty() {
         let need = tr.max_path;
         let mut c2 = cfg.clone();
@@ -156,7 +159,11 @@ pub fn run_c06_case(p: &Program, cfg: &Config, max_iters_for_injection: usize) -
             c2.max_branches = b;
             let (run, _) = trace_run(p, &c2);
             limit_faults += 1;
-            if !matches!(&run.status, LoomStatus::Failed { class: FailClass::BranchLimit, .. }) {
+            // (loom does not enforce the limit at a branch performed while a panic unwinds - the
+            // limit panic would be a double panic - so a budget that runs out inside the
+            // destructor of a caught panic may go unnoticed if no branch follows)
+            let tolerated = branch_in_caught_unwind && matches!(&run.status, LoomStatus::Completed);
+            if !tolerated && !matches!(&run.status, LoomStatus::Failed { class: FailClass::BranchLimit, .. }) {
                 rep.violations.push(Violation {
                     kind: "limit".into(),
                     detail: format!("the longest execution needs {} branches; with max_branches = {} the model should have panicked with the branch-limit message, got {:?}", need, b, run.status),
